@@ -1,6 +1,7 @@
 package tlog
 
 import (
+	"io"
 	"time"
 
 	"github.com/bluenviron/gomavlib/v3/pkg/frame"
@@ -208,10 +209,17 @@ func verifHarness_C20_unencodable(n int) {
 	verifReach("C20/E")
 }
 
+// failAt >= 10: the same with a byte writer that is file-like (it also has Sync, Close, Name... methods a log writer
+// might look for); what those report does not replace the outcome of the Write
 func verifHarness_C20_writefail(n int, failAt int) {
 	rec := &frame.VerifRecWriter{}
+	var bw io.Writer = rec
+	if failAt >= 10 {
+		failAt -= 10
+		bw = &verifFileLikeWriter{VerifRecWriter: rec}
+	}
 	rec.SetFailAt(failAt)
-	w := &Writer{ByteWriter: rec}
+	w := &Writer{ByteWriter: bw}
 	verifAssert(w.Initialize() == nil, "C20/F/init")
 	fr, _ := verifFrame(verifNondetRange(0, 2), n)
 	sec := verifNondetI64()
@@ -224,6 +232,17 @@ func verifHarness_C20_writefail(n int, failAt int) {
 	}
 	verifReach("C20/F")
 }
+
+// a byte writer with the extra methods of an *os.File
+type verifFileLikeWriter struct {
+	*frame.VerifRecWriter
+	syncs, closes int
+}
+
+func (w *verifFileLikeWriter) Sync() error  { w.syncs++; return nil }
+func (w *verifFileLikeWriter) Flush() error { w.syncs++; return nil }
+func (w *verifFileLikeWriter) Close() error { w.closes++; return nil }
+func (w *verifFileLikeWriter) Name() string { return "log.tlog" }
 
 // E2: an unencodable entry between valid ones leaves no trace: the file holds exactly the valid entries
 func verifHarness_C20_fail_then_ok(n int) {
